@@ -253,7 +253,7 @@ theorem tie_putWithPipeSkel : putWithPipeSkel =
    "return",
    "}"] := rfl
 
-/-- handlePUT: every error path returns before resp.Write; PutBlock is called before the reply (Model.handlePut) -/
+/-- handlePUT: every error path returns before resp.Write; PutBlock is called before the reply; the buffer goes back to the pool exactly once on every path (Model.handlePut) -/
 theorem tie_handlePutSkel : handlePutSkel =
   ["defer",
    "if req.ContentLength == -1 {",
@@ -276,9 +276,11 @@ theorem tie_handlePutSkel : handlePutSkel =
    "call io.ReadFull => _,err",
    "if err != nil {",
    "call http.Error",
+   "call bufs.Put",
    "return",
    "}",
    "call PutBlock => replication,err",
+   "call bufs.Put",
    "if err != nil {",
    "if ok {",
    "}",
@@ -401,6 +403,22 @@ i.e. O_EXCL with a random suffix, so two writers never share a temp file (the `s
 of C02_concurrent_writes_atomic; Model.createTemp) -/
 theorem tie_tempFileText : tempFileText =
   "{ o.stats.TickOps(\"create\") o.stats.Tick(&o.stats.CreateOps) f, err := ioutil.TempFile(dir, base) o.stats.TickErr(err) return f, err }" := rfl
+
+/-- compareReaderWithBuf: a match is reported only at EOF with nothing left to compare; more bytes
+than expected, or EOF before all expected bytes, go to collisionOrCorrupt (Model.putCore: Touch only
+when the stored bytes EQUAL the request body) -/
+theorem tie_compareBufConds : compareBufConds =
+  ["if bufLen > len(expect) && len(expect) > 0",
+   "if n > len(cmp) || bytes.Compare(cmp[:n], buf[:n]) != 0",
+   "if err == io.EOF",
+   "if len(cmp) != 0",
+   "if err != nil"] := rfl
+theorem tie_compareBufReturns : compareBufReturns =
+  ["ctx.Err()",
+   "collisionOrCorrupt(hash, expect[:len(expect)-len(cmp)], buf[:n], rdr)",
+   "collisionOrCorrupt(hash, expect[:len(expect)-len(cmp)], nil, nil)",
+   "nil",
+   "err"] := rfl
 
 /-- the literals the model's names are built from -/
 theorem tie_tmpPrefix : tmpPrefix = "tmp".toList := by decide
